@@ -21,6 +21,7 @@ pub const GRAMMAR_TOKENS: &[&str] = &[
     "<textarea><div></textarea>",
     "<di",
     "<title>t</title>",
+    "<!-- c -->",
 ];
 
 /// all sequences of <= max tokens
@@ -168,7 +169,16 @@ pub fn token_spans(body: &[u8]) -> Vec<Span> {
     spans
 }
 
+/// does this byte range contain something a fresh tokenizer would read as markup ('<' followed by a letter, '/', '!' or '?')
+fn has_taglike(bytes: &[u8]) -> bool {
+    bytes.windows(2).any(|w| w[0] == b'<' && (w[1].is_ascii_alphabetic() || w[1] == b'/' || w[1] == b'!' || w[1] == b'?'))
+}
+
 /// Lexical context of a cut at byte offset `p` (0 < p < |body|).
+///
+/// The open finding "lexical context lost across chunks" is about content that *contains markup-like
+/// text*: raw-text / comment / CDATA content without any is named `...-plain` and is never expected to
+/// change the output, so a regression there is not covered by the known signatures.
 pub fn classify_cut(body: &[u8], spans: &[Span], p: usize) -> String {
     if p < body.len() && (body[p] & 0xC0) == 0x80 {
         return "cut-inside-utf8-sequence".to_string();
@@ -190,7 +200,8 @@ pub fn classify_cut(body: &[u8], spans: &[Span], p: usize) -> String {
                         end = spans[j].end;
                     }
                     if s.end <= p && p < end && end > s.end {
-                        return format!("cut-inside-rawtext({tag})");
+                        let content_end = if i + 1 < spans.len() && spans[i + 1].kind == TokenType::TextToken && spans[i + 1].raw_text_of.is_some() { spans[i + 1].end } else { s.end };
+                        return if has_taglike(&body[s.end..content_end]) { format!("cut-inside-rawtext({tag})") } else { format!("cut-inside-rawtext-plain({tag})") };
                     }
                 }
             }
@@ -200,10 +211,20 @@ pub fn classify_cut(body: &[u8], spans: &[Span], p: usize) -> String {
         if s.start < p && p < s.end {
             return match s.kind {
                 TokenType::TextToken => match &s.raw_text_of {
-                    Some(tag) => format!("cut-inside-rawtext({tag})"),
+                    Some(tag) => {
+                        if has_taglike(&body[s.start..s.end]) {
+                            format!("cut-inside-rawtext({tag})")
+                        } else {
+                            format!("cut-inside-rawtext-plain({tag})")
+                        }
+                    }
                     None => {
                         if body[s.start..s.end].starts_with(b"<![CDATA[") {
-                            "cut-inside-cdata".to_string()
+                            if has_taglike(&body[s.start + 2..s.end]) {
+                                "cut-inside-cdata".to_string()
+                            } else {
+                                "cut-inside-cdata-plain".to_string()
+                            }
                         } else {
                             "cut-inside-text".to_string()
                         }
@@ -211,8 +232,11 @@ pub fn classify_cut(body: &[u8], spans: &[Span], p: usize) -> String {
                 },
                 TokenType::CommentToken => {
                     let raw = &body[s.start..s.end];
+                    let plain = raw.len() < 2 || !has_taglike(&raw[2..]);
                     if raw.starts_with(b"<![CDATA[") {
-                        "cut-inside-cdata".to_string()
+                        if plain { "cut-inside-cdata-plain".to_string() } else { "cut-inside-cdata".to_string() }
+                    } else if plain {
+                        "cut-inside-comment-plain".to_string()
                     } else {
                         "cut-inside-comment".to_string()
                     }
@@ -226,7 +250,7 @@ pub fn classify_cut(body: &[u8], spans: &[Span], p: usize) -> String {
             // boundary: directly after the start tag of a raw-text element the following content loses its context
             if s.kind == TokenType::TextToken {
                 if let Some(tag) = &s.raw_text_of {
-                    return format!("cut-inside-rawtext({tag})");
+                    return if has_taglike(&body[s.start..s.end]) { format!("cut-inside-rawtext({tag})") } else { format!("cut-inside-rawtext-plain({tag})") };
                 }
             }
             let _ = i;
